@@ -592,6 +592,17 @@ func (g *gen) evalCall(env *specEnv, e *SExpr) (Val, error) {
 			return Val{}, fmt.Errorf("unknown type %q", e.Args[1].Lit)
 		}
 		return boolVal(eq(app("i_tag", x.T), fmt.Sprint(g.st.tagOf(t)))), nil
+	case "addr":
+		// addr(globalVar): the address of a package-level variable
+		if len(e.Args) != 1 || e.Args[0].Op != "id" || env.pkg == nil {
+			return Val{}, fmt.Errorf("addr(globalVar) expected")
+		}
+		if o, ok := env.pkg.Scope().Lookup(e.Args[0].Name).(*types.Var); ok {
+			return Val{T: globalAddr(shortPkg(o.Pkg().Path()) + "." + o.Name()), Sort: "Int", Typ: types.NewPointer(o.Type())}, nil
+		}
+		return Val{}, fmt.Errorf("addr(): unknown variable %s", e.Args[0].Name)
+	case "now":
+		return intVal(g.now()), nil
 	case "the":
 		// the("T"): the unique object of struct type T allocated by this function
 		if len(e.Args) != 1 || e.Args[0].Op != "str" {
@@ -755,6 +766,12 @@ func (g *gen) evalCall(env *specEnv, e *SExpr) (Val, error) {
 	case "cursorPrivate":
 		g.declareFun("cursorPrivate", []string{"Int"}, "Bool")
 		return boolVal(app("cursorPrivate", args[0].T)), nil
+	case "born":
+		t := args[0].T
+		if args[0].Sort == "Slice" {
+			t = app("s_base", t)
+		}
+		return intVal(g.birth(t)), nil
 	case "payload":
 		return Val{T: app("i_val", args[0].T), Sort: "Int"}, nil
 	case "isNilIface":
